@@ -226,7 +226,7 @@ PropFailures(S, e, T, out, rec) ==
   \cup F("C17", "LookupSound",
          \A k \in DOMAIN rec.lookup :
             LET id == rec.lookup[k][1]  ans == rec.lookup[k][2] IN
-            /\ ans = "ok" <=> Sid(id, 0) \in DOMAIN T.ss
-            /\ ans = "nosuch" => (Sid(id, 0) \notin DOMAIN T.ss /\ id < rec.e.id)
-            /\ id > rec.e.id => ans = "notyet")
+            ans = "skip" \/ ( /\ (ans = "ok" <=> Sid(id, 0) \in DOMAIN T.ss)
+                              /\ (ans = "nosuch" => (Sid(id, 0) \notin DOMAIN T.ss /\ id < rec.e.id))
+                              /\ (id > rec.e.id => ans = "notyet") ))
 =============================================================================
